@@ -34,13 +34,19 @@ RULE = ("rv stream: every RemoteValue class (generic ones with several value typ
         "mismatching DPT of the same / another payload length, invalid DPT, invalid address, same address twice with different DPTs, "
         "no entry} x telegrams {write, response, read, other APCI; group / internal / individual destination; payload valid for the "
         "remote value, valid for the table DPT only, wrong length, wrong kind (binary/array), undecodable} x prior value {none, same, "
-        "different} x always_callback; dev stream: every device class, 1-4 telegrams each; non-trivial = distinct case in which the "
+        "different} x always_callback; dev stream: every device class, 1-4 telegrams each; multi stream: for every device class and "
+        "every address parameter 2-3 devices sharing an address through that parameter (one of them also on a second address), "
+        "3-5 telegrams (full update on the shared address, partial update - xyY / RGBW validity flags - on the second), four worlds "
+        "{empty, matching, mismatching, generated table}, every device's public state and the decoded_data of every earlier "
+        "telegram compared after each step; non-trivial = distinct case in which the "
         "table has an entry for the destination and the telegram reaches process() of a listening remote value/device")
 TRUSTED = [
     "model XknxVerif.Model.EagerDecode is hand-written; datapoint decoders are uninterpreted parameters, the harness feeds the model "
     "the observed outcome class of transcoder.from_knx / remote_value.from_knx on the payload (value identities by Python ==)",
     "hypothesis Faithful (a remote value with dpt_class does not override from_knx) is established by introspection of all "
     "RemoteValue subclasses at run time, not proved",
+    "values are immutable in the model and compared by ==; Python object identity / in-place mutation of a decoded value shared "
+    "through telegram.decoded_data is covered by the multi stream (several devices, several telegrams), not by the theorems",
 ]
 ASSUMPTIONS = ["datapoint decoders raise declared errors only (C07) — otherwise set_decoded_data propagates the exception "
                "(theorem setDecodedData_raises_iff); the oracle reports any such exception as a violation with the input"]
@@ -318,6 +324,12 @@ def generate(rng, tier):
                 yield {"kind": "rv", "rv": name, "variant": variant, "tbl": tbl,
                        "tg": {"dst": dst, "apci": rng.choice(["w", "w", "w", "r", "r", "q", "o"]), "payload": pay},
                        "prior": prior, "always": rng.random() < 0.25}
+    # multi stream: 2-3 devices of one class sharing an address through the same constructor parameter, 3-5 telegrams
+    # (full update on the shared address, then a partial update on an address only one of them listens to, ...)
+    for rep in range(10 if thorough else 2):
+        for cname, cls in P.device_classes().items():
+            for param in P.ga_params(cls):
+                yield {"kind": "multi", "cls": cname, "param": param, "seed": rng.randrange(1 << 30)}
     # device stream
     ndev = 80 if thorough else 15
     for cname in P.device_classes():
@@ -611,6 +623,159 @@ async def _run_dev_async(case):
     return {"out": f"dev {spec['cls']} same", "line": None, "diff": None, "hit": hit}
 
 
+def _full_partial(rng, rv, partial):
+    """payload for the remote value's type; for the merge-capable colour types with all / only some validity flags set"""
+    c = getattr(rv, "dpt_class", None)
+    name = getattr(c, "__name__", "") if isinstance(c, type) else type(rv).__name__
+    if name == "DPTColorXYY":      # x(2) y(2) brightness(1) flags: bit1 colour valid, bit0 brightness valid
+        return ["a", [rng.randrange(256) for _ in range(5)] + [rng.choice([1, 2]) if partial else 3]]
+    if name == "RemoteValueColorRGBW":   # r g b w, reserved, validity nibble
+        return ["a", [rng.randrange(256) for _ in range(4)] + [0, rng.choice([1, 2, 4, 8, 3, 12, 7]) if partial else 15]]
+    if isinstance(c, type):
+        return _payload_for_dpt(rng, c)
+    if type(rv).__name__ in ("RemoteValueSwitch", "RemoteValueUpDown", "RemoteValueStep", "RemoteValueBinaryHeatCool",
+                             "RemoteValueBinaryOperationMode"):
+        return ["b", rng.randrange(2)]
+    if type(rv).__name__ in ("RemoteValueScaling", "RemoteValueDptValue1Ucount"):
+        return ["a", [rng.randrange(256)]]
+    return _random_payload(rng)
+
+
+def _decoded_consistent(t):
+    """a telegram still carries what its transcoder decodes from its payload"""
+    d = t.decoded_data
+    if d is None:
+        return True
+    try:
+        return _eq(d.value, d.transcoder.from_knx(t.payload.value))
+    except Exception:  # noqa: BLE001
+        return False
+
+
+async def _run_multi_async(case):
+    import random
+    rng = random.Random(case["seed"])
+    cname, param = case["cls"], case["param"]
+    shared, extra = 0, 1
+    specs = []
+    for k, lst in enumerate([[shared], [shared, extra]] + ([[extra]] if rng.random() < 0.5 else [])):
+        sp = P.random_spec(rng, cname, 6, rng.choice([0.0, 0.1, 0.3]))
+        sp["ga"] = {q: v for q, v in sp["ga"].items() if q != param}
+        sp["ga"][param] = [lst, 6 + k]
+        specs.append(sp)
+    if rng.random() < 0.3:
+        specs.reverse()                     # registration order: the narrow listener first or last
+    # a throw-away instance tells which remote values (and DPT classes) sit behind the addresses
+    probe = P.build_pool(XKNX(), specs)
+    amap = P.addr_index_map(len(P.ADDR_POOL))
+    by_addr = {}
+    for d in probe:
+        for rv in d._iter_remote_values():
+            for a in rv.group_addresses():
+                by_addr.setdefault(amap[a], []).append(rv)
+    match, mismatch = [], []
+    for g, rvs in sorted(by_addr.items()):
+        cs = [getattr(rv, "dpt_class", None) for rv in rvs]
+        cs = [c for c in cs if isinstance(c, type) and c in ALL_DPTS]
+        if cs:
+            c = cs[0]
+            match.append([["ok", g, rng.randrange(8)], ["ok", _dpt_index(c), rng.randrange(6)]])
+            alt = _same_length_dpts(c)
+            if alt:
+                mismatch.append([["ok", g, rng.randrange(8)], ["ok", _dpt_index(rng.choice(alt)), rng.randrange(6)]])
+        else:
+            mismatch.append([["ok", g, rng.randrange(8)], ["ok", rng.randrange(len(ALL_DPTS)), rng.randrange(6)]])
+    # the remote value(s) the parameter under test feeds (by feature name), preferred when crafting payloads
+    pdev = P.build(XKNX(), {"cls": cname, "extra": 0, "ga": {param: [[shared], 0]}}, "probe")
+    target = {rv.feature_name for rv in pdev._iter_remote_values() if P.addr_obj(shared) in set(rv.group_addresses())}
+
+    def pick(rvs):
+        pref = [rv for rv in rvs if rv.feature_name in target]
+        return rng.choice(pref) if pref and rng.random() < 0.8 else rng.choice(rvs)
+
+    tables = {"empty": [], "matching": match, "mismatching": mismatch,
+              "generated": _gen_table(rng, sorted(by_addr), None)}
+    worlds = {}
+    for wname, tbl in tables.items():
+        xk = XKNX()
+        devs = P.build_pool(xk, specs)
+        for d in devs:
+            xk.devices.async_add(d)
+        seen = []
+        xk.telegram_queue.register_telegram_received_cb(seen.append)
+        try:
+            xk.group_address_dpt.set(_table_arg(tbl))
+        except Exception as e:  # noqa: BLE001
+            return {"out": f"multi {cname} set-raised:{type(e).__name__}", "line": None, "diff": None, "hit": False}
+        worlds[wname] = (xk, devs, seen)
+    # telegram sequence
+    seq = []
+    n = rng.randint(3, 5)
+    for k in range(n):
+        dsti = shared if k == 0 else (extra if k == 1 else rng.choice([shared, extra, extra, rng.randrange(6)]))
+        rvs = by_addr.get(dsti, [])
+        pay = _full_partial(rng, pick(rvs), partial=(k >= 1 and rng.random() < 0.8)) if rvs and rng.random() < 0.9 \
+            else _random_payload(rng)
+        seq.append((dsti, rng.choice(["w", "w", "w", "r"]), pay))
+    hit = False
+    for k, (dsti, apci, pay) in enumerate(seq):
+        res = {}
+        for wname, (xk, devs, seen) in worlds.items():
+            t = Telegram(destination_address=P.addr_obj(dsti), payload=_apci(apci, _payload(pay)), direction=TelegramDirection.INCOMING)
+            r = "ok"
+            try:
+                xk.group_address_dpt.set_decoded_data(t)
+                if t.decoded_data is not None:
+                    hit = True
+            except Exception as e:  # noqa: BLE001
+                r = f"set_decoded_data raised {type(e).__name__}"
+            if r == "ok":
+                try:
+                    await xk.telegram_queue.process_telegram_incoming(t)
+                except (ConversionError, CouldNotParseTelegram) as e:
+                    r = f"declared:{type(e).__name__}"
+                except Exception as e:  # noqa: BLE001
+                    r = f"other:{type(e).__name__}"
+            await asyncio.sleep(0)
+            stale = [j for j, u in enumerate(seen) if not _decoded_consistent(u)]
+            res[wname] = (r, [_public_state(d) for d in devs], _drain(xk), stale)
+        where = f"{cname}.{param}: telegram #{k} {apci} to {P.ADDR_POOL[dsti]} payload {pay} (sequence {seq[:k + 1]})"
+        r0, s0, q0, _ = res["empty"]
+        for wname, (r1, s1, q1, stale) in res.items():
+            if stale:
+                return {"out": f"multi {cname} differs", "line": None, "hit": hit,
+                        "diff": f"{where}: with the {wname} table, telegram(s) #{stale} received earlier no longer carry what their "
+                                f"type decodes from their payload (decoded_data mutated)"}
+            if r1 != r0:
+                return {"out": f"multi {cname} differs", "line": None, "hit": hit,
+                        "diff": f"{where}: processing ended '{r1}' with the {wname} table, '{r0}' with an empty table"}
+            for di, (a, b) in enumerate(zip(s1, s0)):
+                for key in sorted(set(a) | set(b)):
+                    if a.get(key) != b.get(key):
+                        return {"out": f"multi {cname} differs", "line": None, "hit": hit,
+                                "diff": f"{where}: device #{di} {key} = {a.get(key)} with the {wname} table, {b.get(key)} with an empty table"}
+            if q1 != q0:
+                return {"out": f"multi {cname} differs", "line": None, "hit": hit,
+                        "diff": f"{where}: queued telegrams {q1} with the {wname} table, {q0} with an empty table"}
+    for xk, devs, _ in worlds.values():
+        xk.task_registry.stop()
+    return {"out": f"multi {cname} same", "line": None, "diff": None, "hit": hit}
+
+
+def _run_async(coro_fn, case):
+    logging.disable(logging.CRITICAL)
+    try:
+        loop = _LOOP or asyncio.new_event_loop()
+        try:
+            return loop.run_until_complete(coro_fn(case))
+        finally:
+            for t in asyncio.all_tasks(loop):
+                t.cancel()
+            loop.run_until_complete(asyncio.sleep(0))
+    finally:
+        logging.disable(logging.NOTSET)
+
+
 def _run_dev(case):
     logging.disable(logging.CRITICAL)
     try:
@@ -629,7 +794,9 @@ _LAST = {}
 
 
 def run_impl(case):
-    r = _run_rv(case) if case["kind"] == "rv" else (_run_tbl(case) if case["kind"] == "tbl" else _run_dev(case))
+    k = case["kind"]
+    r = _run_rv(case) if k == "rv" else _run_tbl(case) if k == "tbl" else \
+        _run_async(_run_multi_async, case) if k == "multi" else _run_dev(case)
     _LAST["case"], _LAST["res"] = case, r
     return r
 
@@ -656,8 +823,8 @@ def nontrivial(case, out):
 
 
 def outcome_class(out):
-    if out.startswith("dev"):
-        return "dev " + out.split()[-1]
+    if out.startswith("dev") or out.startswith("multi"):
+        return out.split()[0] + " " + out.split()[-1]
     if "," in out or out.startswith("set-raised"):
         return "table"
     t = out.split()
@@ -670,4 +837,6 @@ def finding_key(case, msg):
         return f"rv {case['rv']}#{case['variant']} {case['tg']} {case['tbl']}"
     if case["kind"] == "tbl":
         return f"tbl {case['parts']}"
+    if case["kind"] == "multi":
+        return f"multi {case['cls']}.{case['param']} seed={case['seed']}"
     return f"dev {case['spec']['cls']} seed={case['seed']}"
